@@ -21,6 +21,7 @@ def step (line : String) : String :=
     | "parse" => parseCmd args
     | "mapper" => mapperCmd args
     | "mapperrace" => mapperraceCmd args
+    | "namerune" => nameruneCmd args
     | "pipe" => pipeCmd args
     | "hl" => hlCmd args
     | "queue" => queueCmd args
